@@ -254,6 +254,7 @@ type lkObs struct {
 	self                    peer.ID
 	pubPeers                []peer.ID
 	pubErr                  bool
+	pubCancelled            bool // the public run's own context was cancelled by the driver
 	pubMoved                bool
 	pubMovedObservable      bool
 	hasPub                  bool
@@ -547,6 +548,7 @@ func lkRun(t *testing.T, r *vfRand, c *lkCase, public bool, hooks ...*lkHooks) *
 		o.pubMoved = !stampsAfter[keyCpl].Equal(before)
 	}
 	o.pubErr = err != nil
+	o.pubCancelled = cancelled
 	o.addrsNonEmpty = len(d.FilteredAddrs()) > 0
 	o.pubMovedObservable = keyCpl < len(stampsAfter)
 	return o
@@ -660,7 +662,7 @@ func lkCoq(c *lkCase, o *lkObs, selfID peer.ID) string {
 		if o.pubMovedObservable {
 			mv = "Some " + vfBool(o.pubMoved)
 		}
-		pub = fmt.Sprintf("Some (%s, %s, %s)", lkIDs(o.pubPeers), vfBool(o.pubErr), mv)
+		pub = fmt.Sprintf("Some (%s, %s, %s, %s)", lkIDs(o.pubPeers), vfBool(o.pubErr), mv, vfBool(o.pubCancelled))
 	}
 	fmt.Fprintf(&b, "   i_events := %s;\n   i_requests := %s;\n   i_pub := %s |}", vfList(evs), lkIDs(o.requests), pub)
 	return b.String()
@@ -747,7 +749,7 @@ func lkRunAll(t *testing.T, runMod string, honestPct int, withPublic bool) {
 			self = o.self
 			if c.honest && withPublic {
 				o2 := lkRun(t, vfNewRand(x), c, true)
-				o.hasPub, o.pubPeers, o.pubErr, o.pubMoved, o.pubMovedObservable = true, o2.peers, o2.pubErr, o2.pubMoved, o2.pubMovedObservable
+				o.hasPub, o.pubPeers, o.pubErr, o.pubMoved, o.pubMovedObservable, o.pubCancelled = true, o2.peers, o2.pubErr, o2.pubMoved, o2.pubMovedObservable, o2.pubCancelled
 				if o2.panicked != "" || o2.deadlock {
 					o.panicked = "public GetClosestPeers: " + o2.panicked
 				}
